@@ -2,7 +2,7 @@
    The theorems quantify over EVERY history of operations (send, explicit authenticate with good / bad / cached
    credentials, device-level wrappers, clock jumps, lifetime changes) of ANY length and over EVERY environment script
    (connect refused / hanging, peer silent, error packets, bad handshake replies, peer close, arbitrary delays). *)
-From MS Require Import lib.Base gen.GenLan model.Session proofs.SessionProofs proofs.SessionLife.
+From MS Require Import lib.Base gen.GenLan model.Session proofs.SessionProofs proofs.SessionLife proofs.SessionKeyAge.
 Local Open Scope N_scope.
 
 (* the invariant holds in every reachable state *)
@@ -73,6 +73,25 @@ Example C07_rehandshake_does_not_extend_lifetime :
                       (world_init [] [[(0, RHsOk)]; [(0, RHsOk)]; [(0, RHsOk)]] [[(0, RFrame 1)]])))
   = [EvConnect 0 true; EvHs 0 0 true; EvAuthOk 0 1; EvHs 0 1 true; EvAuthOk 0 2; EvClose 0; EvConnect 1 true;
      EvHs 1 0 true; EvAuthOk 1 3; EvData 1 1 3 9].
+Proof. vm_compute. reflexivity. Qed.
+
+(* the 12 h life of a session key counts from the handshake that produced it: over ANY history in which no handshake reply is
+   accepted (no EvAuthOk), the key expiry of the connection in use either stays what it was or is gone with the connection - verified
+   responses, exchanges, failures, waiting, reconnecting never extend it; accepting a reply sets it to that moment + 12 h *)
+Theorem C07_key_age_counted_from_handshake : forall os w, exists evs,
+  w_log (snd (run_ops os w)) = w_log w ++ evs /\
+  (nauth evs = 0%nat -> lexp_of (snd (run_ops os w)) = lexp_of w \/ lexp_of (snd (run_ops os w)) = None).
+Proof. exact key_age_counted_from_handshake. Qed.
+Print Assumptions C07_key_age_counted_from_handshake.
+Theorem C07_accept_sets_key_expiry : forall kid w w', accept_key kid w = (Ok tt, w') -> lexp_of w' = Some (w_now w + AUTH_EXP_MS).
+Proof. exact accept_sets_key_expiry. Qed.
+Print Assumptions C07_accept_sets_key_expiry.
+
+(* handshake at 0, an exchange 7 h later, another 6 h after that (13 h after the handshake): it starts with a new handshake *)
+Example C07_exchanges_do_not_extend_key_life :
+  w_log (snd (run_ops [OAuth (Some true) 3; OTick 25200000; OSend 7 3; OTick 21600000; OSend 8 3]
+                      (world_init [] [[(0, RHsOk)]; [(0, RHsOk)]] [[(0, RFrame 1)]; [(0, RFrame 2)]])))
+  = [EvConnect 0 true; EvHs 0 0 true; EvAuthOk 0 1; EvData 0 1 1 7; EvHs 0 2 true; EvAuthOk 0 2; EvData 0 3 2 8].
 Proof. vm_compute. reflexivity. Qed.
 
 Example C07_nonvacuous :
